@@ -32,7 +32,9 @@ CHECKS = {
            'kernel _remove_rows_csr (see C08), _axis_to_num, _index, ids, index, exists, length, is_empty (accessors answer from the '
            'id arrays / lookup tables of the right axis and change nothing), metadata (entry at the position the lookup of the '
            'requested axis gives); Tier A (view-level scipy model) - _index_ids, sum, nnz, get_table_density, filter, _get_row, '
-           '_get_col, __getitem__ (element form) and get_value_by_ids (the cell at the positions the two lookups give). The errcheck machinery the invariant rests on is proved under C20; constructors and the '
+           '_get_col, __getitem__ (element form), get_value_by_ids (the cell at the positions the two lookups give), data (the '
+           'vector of an id on the requested axis, dense or sparse, cell by cell) and the constructor for scipy input (see C17). '
+           'The errcheck machinery the invariant rests on is proved under C20; the other constructor forms and the '
            'other operations are bounded.', technique=TECH),
  'C06': _b('Contracts of sort / sort_order / align_to / transpose / copy / update_ids (permute or relabel only; inverse '
            'laws) over all permutations of axes up to 4, injective / partial renamings, all layouts. Deductive part (Tier A, '
